@@ -39,7 +39,7 @@ CLAIMED = {
     ),
     "C18": (
         "runtime relation monitor: f64 trigonometry and exact f32 relations as oracle for unit conversions, operators, wrap (interval membership + congruence modulo the f32 interval length), polar/spherical coordinate changes in both compositions",
-        "≥ 5·10^6 (thorough 5·10^8) cases: angles over ±1e4 rad incl. quarter-turn multiples ±1 ulp — degrees/radians/turns mutually consistent (1e-6), operators/min/max/clamp bit-identical to the same operation on the magnitude, sin_cos ≡ (sin, cos), sin²+cos² = 1, sin/cos vs f64; wrap into intervals of any position and width 1e-3..100 rad — result inside [min,max] and congruent to the input with a tolerance scaled by the operand magnitudes; vectors over 1e-6..1e6 incl. axis-aligned and near-axis — r = length, azimuth in [-180°,180°], altitude in [-90°,90°], both compositions inverse.",
+        "≥ 5·10^6 (thorough 5·10^8) cases: angles over ±1e4 rad incl. quarter-turn multiples ±1 ulp — degrees/radians/turns mutually consistent (1e-6), operators/min/max/clamp equal to the same f32 operation on the magnitude (within 8 ulps; bit-identical counted), sin_cos ≡ (sin, cos), sin²+cos² = 1, sin/cos vs f64; wrap into intervals of any position and width 1e-3..100 rad — result inside [min,max] and congruent to the input with a tolerance scaled by the operand magnitudes; vectors over 1e-6..1e6 incl. axis-aligned and near-axis — r = length, azimuth in [-180°,180°], altitude in [-90°,90°], both compositions inverse.",
         "wrap judged for max > min; azimuth tolerance scaled near the poles where it is ill-conditioned.",
         "DESIGN.md §5 C18",
     ),
@@ -131,7 +131,7 @@ ADDED = {
     "C02": " Added since: a stream of scenes whose vertices lie bit-exactly on frustum planes (vertex/edge/whole triangle in a plane, touching from outside, corner touches) in multi-triangle calls, frames up to 4096 px (elongated and realistic sizes), an extra pass with every fragment written for scenes whose flags could hide a stray fragment, mirrored viewports, free (log-uniform) near/far/focal, off-axis and flipped orthographic boxes, triangles naming a vertex twice; generators aimed at the two defects the thorough tier found (F14, F15).",
     "C03": " Added since: scale invariance (clip(2^k·T) = 2^k·clip(T) bit for bit, k down to −120), near-plane relative distances 1e-7..1e-2, degenerate inputs range-checked, batches of 0/1/64/1000 triangles with each member's output judged absolutely, eleven attribute types, position tolerance and band tightened to 3e-6·scale.",
     "C04": " Added since: triangles reaching into negative coordinates judged on the pixels unsigned coordinates can address, small triangles at offsets up to 65536, all six vertex orders at extents up to 2048, a per-triangle drift allowance (rows stepped, not the frame size) for known finding F9, judging continues past drift-class hits.",
-    "C05": " Added since: eleven attribute types (Angle, Point3, nested tuples, colour+point), reciprocal depths from 1e-4 to 1e3 and attribute magnitudes over fourteen decades, tied/constant/zero attribute components, rounding floor scaled by the depth ratio, a large-extent stream (256..2048 px) under the F9 drift model, triangles hanging off the top/left border (negative coordinates).",
+    "C05": " Added since: eleven attribute types (Angle, Point3, nested tuples, colour+point), reciprocal depths from 1e-4 to 1e3 and attribute magnitudes over fourteen decades, reciprocal depths from 1e6 down to 1e-10, tied/constant/zero attribute components, rounding floor scaled by the depth ratio, a large-extent stream (256..2048 px) under the F9 drift model, triangles hanging off the top/left border (negative coordinates).",
     "C06": " Added since: histories over prior frames of every depth (incl. ±inf), depths over twelve decades and a few ulps apart, per-call depth_sort settings and empty calls, windowed targets whose colour and depth parents differ in size and offset, cut-out materials; painter clause on colour-only targets, with slabs crossing the near/far planes and with up to 100 triangles, with a floor on pixels where the sort matters.",
     "C07": " Added since: face culling crossed with the write masks, calls with an empty triangle list, prior depths ±inf/−0.0/−1e30, a shader that discards every fragment, culling under mirrored viewports; the shader-invocation count is recorded, not judged; a third of the scenes (empty calls included) go through Batch::render; a mismatch with the submission-order model is a violation only if no per-pixel draw order within each call and neither tie rule for Less/Greater explains buffers and the written-fragment total; clip pieces thinner than 0.02 px count as degenerate for the culling statistics.",
     "C08": " Added since: a confinement flood test (a quad covering the whole view must light exactly the viewport ∩ frame, pixels on the clip fan's diagonals excepted), five viewport spellings incl. open-ended ranges, near/far skip band scaled with the projection's z row.",
@@ -143,9 +143,9 @@ ADDED = {
     "C15": " Added since: radii over ten decades with a per-axis weld tolerance, extents and partial azimuth ranges honoured, open surfaces checked as manifolds with boundary (Euler characteristic of a tube/disk), Platonic regularity (vertex/face counts, equal edges, circumradius), sine-based degeneracy threshold, capped partial lathes.",
     "C16": " Added since: a float stream over all magnitudes of [0,1] (zero of either sign, subnormal, log-uniform to 1e-38, within ulps of 1, ulp-close channel pairs), 8-bit HSL→RGB judged against the real-number conversion, exact range checks, Affine::add with differences over all of i32 and for three-channel and HSL colours, alpha paths.",
     "C17": " Added since: Angle and Color3f, polygons of small extent far from the origin and with per-point magnitudes, t palette incl. tiny negatives, 1 + ulps, ±inf and huge values, tangents judged at ends and joins, an extent-relative tangent bound, BezierSpline::new's length contract and from_rays.",
-    "C18": " Added since: wrap inputs bit-equal to the interval ends, an ulp either side of both, and up to 10^4 interval lengths away; intervals as users write them (degs/turns constructors, min up to ±1e4); the upper end is accepted only where rounding can produce it; zeros of either sign in vectors; compositions within 0.01° of the poles.",
-    "C19": " Added since: 30 fixed float ranges (zero and subnormal ends, power-of-two ends reached by rounding, overflowing width), random ranges × the mantissas where rounding bites, three low-bit completions per mantissa, integer extremes in either half of the output word, states solved to land within 2e-6 of the centre of the ball and on the rim of the disk, samples() and generator end-state checks.",
-    "C20": " Added since: every backend built in a plain release profile as well (8 builds), domain edge points (signed zeros, axes of atan2, ±1), zero-base powf, a wide-domain block (log-uniform magnitudes to 1e±30 for periodic functions, atan2 of independent magnitudes, asin/acos within ulps of ±1, exp over its whole range), full-range sqrt/recip_sqrt by bit pattern, wrap judged by range and congruence and, at the seam without rounding, equality with min; abs on every bit pattern; normalize over every magnitude whose squared length f32 holds (subnormal squared lengths on the exact backends), both samplers with special coordinates, the functions reached through Angle / free functions / Vector::len.",
+    "C18": " Added since: wrap inputs bit-equal to the interval ends, an ulp either side of both, and up to 10^4 interval lengths away; intervals as users write them (degs/turns constructors, min up to ±1e4); the upper end is accepted only where rounding can produce it; zeros of either sign in vectors; compositions within 0.01° of the poles; the clauses that go through the float helpers (wrap over many revolutions and magnitudes, sin_cos, polar/spherical round trips) are also run on the libm and mm backends in both profiles (rffp C18 entry, per-backend tolerances).",
+    "C19": " Added since: 30 fixed float ranges (zero and subnormal ends, power-of-two ends reached by rounding, overflowing width), random ranges × the mantissas where rounding bites, three low-bit completions per mantissa, integer extremes in either half of the output word, states solved to land within 2e-6 of the centre of the ball and on the rim of the disk, samples() and generator end-state checks; composite distributions on narrow ranges far from the origin with states solved for extreme mantissas, every component checked against its half-open range.",
+    "C20": " Added since: every backend built in a plain release profile as well (8 builds), domain edge points (signed zeros, axes of atan2, ±1), zero-base powf, a wide-domain block (log-uniform magnitudes to 1e±30 for periodic functions, atan2 of independent magnitudes, asin/acos within ulps of ±1, exp over its whole range), full-range sqrt/recip_sqrt by bit pattern, wrap judged by range and congruence and, at the seam without rounding, equality with min; wrap inputs up to 1e7 rad and beyond (range only); abs on every bit pattern; normalize over every magnitude whose squared length f32 holds (subnormal squared lengths on the exact backends), both samplers with special coordinates, the functions reached through Angle / free functions / Vector::len.",
 }
 
 NOT_APPLICABLE = {
